@@ -17,7 +17,7 @@ import sys
 from concurrent.futures import ThreadPoolExecutor
 
 VERIF = "/verif"
-SEED = "/tmp/seed"
+SEED = os.environ.get("SEED_DIR", "/tmp/seed")
 SCRATCH = "/tmp/sv"
 PY = "/venv/bin/python"
 
@@ -110,7 +110,7 @@ def main():
             seeds.append((pid, int(k)))
     else:
         for i in range(1, 21):
-            for k in (1, 2):
+            for k in (1, 2, 3, 4):
                 if os.path.exists(os.path.join(SEED, "C%02d" % i, "patch%d.diff" % k)):
                     seeds.append(("C%02d" % i, k))
     with ThreadPoolExecutor(max_workers=5) as ex:
